@@ -195,6 +195,9 @@ pub enum Op {
     SubDef(u16, SigS),
     /// host event applied between drive calls (same events the clock can apply mid-call)
     Host(HostEv),
+    /// detach the k-th device of the scenario's `devs` list (chaos histories only: the reference model
+    /// has no notion of it)
+    RemoveDev(usize),
 }
 
 pub const SSP_PROBE: u16 = 0xFFF0;
@@ -590,6 +593,13 @@ pub fn exec_op(w: &mut World, op: &Op) -> OpRes {
         }
         Op::Host(ev) => {
             w.host.apply(ev);
+            OpRes::Cfg
+        }
+        Op::RemoveDev(k) => {
+            // scenario devices follow the keyboard, the display and the clock in the handler's table
+            if let Some(ix) = w.dev_ix.get(*k) {
+                let _ = w.sim.device_handler.remove_device(*ix as u16);
+            }
             OpRes::Cfg
         }
     }
